@@ -30,3 +30,45 @@ Definition layout_mix (archid base ip0 : Z) (gp0 : list Z) (l : list (Z * list Z
 (* the boolean precondition of the theorem, with the module lookup and instruction_seems_valid of the case's own modules *)
 Definition layout_mix_wf (archid base ip0 : Z) (mods : list modspec) (l : list (Z * list Z * Z)) : bool :=
   mix_wf_layout (arch_of archid) (d_instr_valid mods) (d_module_at mods) base ip0 (mspecs_of l).
+
+(* the rule table of theorem c04_recovers_chain_rules read off the case's own modules: a module whose symbol file is of
+   the family `STACK CFI INIT lo size .cfa: <sp> N + .ra: .cfa <pw> - ^` covers [x] with N *)
+Definition rule_at_of (a : arch) (mods : list modspec) (x : Z) : option Z :=
+  match mod_of mods x with
+  | Some (b, _, Some s) =>
+      if x <? b then None else
+      let addr := x - b in
+      if (0 <? s_cfi_size s) && (s_cfi_lo s <=? addr) && (addr <? s_cfi_lo s + s_cfi_size s) &&
+         (s_ra_kind s =? 0) && (s_ra_arg s =? a_pw a) && (match s_fp_off s with None => true | Some _ => false end) &&
+         (match s_text s with None => true | Some _ => false end) && (match s_table s with None => true | Some _ => false end)
+      then Some (s_cfa_off s) else None
+  | _ => None
+  end.
+Definition layout_mix_rules_ok (archid ip0 : Z) (mods : list modspec) (l : list (Z * list Z * Z)) : bool :=
+  rules_ok (arch_of archid) (rule_at_of (arch_of archid) mods) ip0 (mspecs_of l).
+
+Fixpoint zlist_eqb (l1 l2 : list Z) : bool :=
+  match l1, l2 with [], [] => true | x :: t1, y :: t2 => (x =? y) && zlist_eqb t1 t2 | _, _ => false end.
+Definition valid_eqb (v1 v2 : validity) : bool :=
+  match v1, v2 with VAll, VAll => true | VSome l1, VSome l2 => zlist_eqb l1 l2 | _, _ => false end.
+Definition frame_eqb (f g : frame) : bool :=
+  (f_instr f =? f_instr g) && (f_resume f =? f_resume g) && (trust_code (f_trust f) =? trust_code (f_trust g)) &&
+  (r_ip (f_regs f) =? r_ip (f_regs g)) && (r_sp (f_regs f) =? r_sp (f_regs g)) && (r_fp (f_regs f) =? r_fp (f_regs g)) &&
+  (r_lr (f_regs f) =? r_lr (f_regs g)) && zlist_eqb (r_gp (f_regs f)) (r_gp (f_regs g)) && valid_eqb (f_valid f) (f_valid g).
+Fixpoint frames_eqb (l1 l2 : list frame) : bool :=
+  match l1, l2 with [] , [] => true | x :: t1, y :: t2 => frame_eqb x y && frames_eqb t1 t2 | _, _ => false end.
+
+(* the walker model with the rule evaluator [cfi_rules] in place of the driver's symbol-file model returns exactly the
+   chain of the theorem (computed, both profiles): the executable face of c04_recovers_chain_rules on this case *)
+Definition layout_mix_rules_walk (archid os base ip0 : Z) (gp0 : list Z) (mods : list modspec) (l : list (Z * list Z * Z)) : bool :=
+  let a := arch_of archid in
+  let fs := mspecs_of l in
+  let '(r, v, mem) := mix_layout a base ip0 gp0 fs in
+  let want := from_context r v TContext :: mix_chain a v gp0 base 0 fs in
+  let one (p : profile) :=
+    match walk_stack current_code p a os mem (d_module_at mods) (d_max_module_addr mods)
+                     (cfi_rules a mem (rule_at_of a mods)) (d_instr_valid mods) (fuel_for mem) r v with
+    | Ret frames => frames_eqb frames want
+    | _ => false
+    end in
+  one Debug && one Release.
